@@ -732,6 +732,28 @@ func (c *Cluster) Shutdown(ctx context.Context) error {
 		c.peerManager.SavePeerstoreForPeers(c.host.Peerstore().Peers())
 	}
 
+	// Another member may have removed us since the last watchPeers() round:
+	// a peer which is no longer in the peerset when it shuts down has been
+	// removed, whoever started the shutdown.
+	if c.consensus != nil && ready && !removed {
+		if peers, err := c.consensus.Peers(ctx); err == nil {
+			hasMe := false
+			for _, p := range peers {
+				if p == c.id {
+					hasMe = true
+					break
+				}
+			}
+			if !hasMe {
+				logger.Info("peer no longer in peerset. Consensus state will be cleaned")
+				removed = true
+				c.stateLock.Lock()
+				c.removed = true
+				c.stateLock.Unlock()
+			}
+		}
+	}
+
 	// Only attempt to leave if:
 	// - consensus is initialized
 	// - cluster was ready (no bootstrapping error)
